@@ -20,6 +20,7 @@ pub mod c15;
 pub mod c16;
 pub mod c17;
 pub mod c18;
+pub mod c19;
 
 pub fn level_of(id: &str) -> &'static str {
     match id {
@@ -46,6 +47,7 @@ pub fn run(ctx: &Ctx) -> bool {
         "C16" => c16::run(ctx),
         "C17" => c17::run(ctx),
         "C18" => c18::run(ctx),
+        "C19" => c19::run(ctx),
         _ => return false,
     }
     true
@@ -69,6 +71,7 @@ pub fn replay(ctx: &Ctx, id: &str, kind: &str, case: &J) -> Vec<Fail> {
         "C16" => c16::replay(ctx, kind, case),
         "C17" => c17::replay(ctx, kind, case),
         "C18" => c18::replay(ctx, kind, case),
+        "C19" => c19::replay(ctx, kind, case),
         _ => vec![Fail::new("harness", format!("no replay for property {}", id))],
     }
 }
